@@ -29,6 +29,12 @@ def run(ctx):
                                   feat=dict(order_only=0.6, deps=0.6, phony=0.2, restat=0.25, chain=0.55))
     items += sched.small_scenarios(ctx, "C04", 300 if quick else 4000, rng, size=(7, 14), cap=40 if quick else 300, salt=1,
                                    feat=dict(order_only=0.6, deps=0.6, phony=0.2, chain=0.7))
+    # generated headers that a consumer knows only from its recorded discoveries (no manifest path to their generator),
+    # after a first build, with the consumer and the generator out of date at the same time.  (Every output exists when the explored build starts: with a missing consumer output the known C10
+    # finding - recorded dependencies are not loaded for it - would show up here as well.)
+    items += sched.small_scenarios(ctx, "C04", 500 if quick else 10000, rng, size=(3, 7), cap=60 if quick else 600, salt=2, with_history=1.0,
+                                   change_kinds=["edit", "edit", "edit_hdr", "touch", "cmd"], build_everything_first=True,
+                                   feat=dict(deps=0.9, no_manifest_path=0.6, restat=0.15, chain=0.6, dyndep=0.0, phony=0.1, generator=0.0))
     sched.run_explore(ctx, "C04", items)
     ctx.rule = ("graphs of 2..6 statements: all completion orders (cap %d per graph), 7..14 statements: first %d orders of the DFS; "
                 "distinct_nontrivial = distinct (scenario, START/FINISH interleaving) with >= 2 commands" %
